@@ -299,13 +299,14 @@ QXmppTask<QXmppBlockingManager::BlocklistResult> QXmppBlockingManager::fetchBloc
                 }
             }
 
-            // report result to all promises
-            for (auto &promise : d->openFetchBlocklistPromises) {
+            // report result to all promises (a continuation may call fetchBlocklist() again, so
+            // work on a moved-out copy of the cached promises)
+            auto promises = std::move(d->openFetchBlocklistPromises);
+            d->openFetchBlocklistPromises.clear();
+            for (auto &promise : promises) {
                 auto copy = blocklistResult;
                 promise.finish(std::move(copy));
             }
-            // delete cached promises
-            d->openFetchBlocklistPromises.clear();
         });
     }
 
